@@ -939,7 +939,7 @@ pub fn replay(pid: &str, v: &Value) -> Vec<Failure> {
 
 pub fn run(ctx: &Ctx, pid: &'static str) -> ! {
     let with_time = pid == "C15" || pid == "C12";
-    let cases = ctx.tier.pick(96_000u32, 2_400_000);
+    let cases = ctx.tier.pick(96_000u32, 4_000_000);
     let max_ops = if pid == "C13" || pid == "C14" { 60 } else { 40 };
     let mut st = parallel(|w, st| {
         let strat = scenario_s(max_ops, with_time);
